@@ -534,7 +534,13 @@ def run(tier, seed):
                 if order[ps1] > order[ps2] and b1 <= b2:
                     reduction_checks += 1
                     extra = o1 - o2
-                    if extra:
+                    unlisted = any(v['case'].get('scenario') == scen and v.get('features', {}).get('cause', 'other') == 'other'
+                                   for v in st.viol)
+                    if extra and unlisted:
+                        # the tree under test has a violation of its own in this scenario: that is the verdict to report;
+                        # shared state the point sets do not know about is expected then
+                        st.notes.append('reduction check skipped for %s: unlisted violations present' % scen)
+                    elif extra:
                         raise runner.HarnessError(
                             'partial-order reduction unsound for scenario %s (%d threads): point set %r (bound %d) reaches '
                             'an outcome that point set %r (bound %d) does not: %r' % (scen, n, ps1, b1, ps2, b2, sorted(extra)[:1]))
